@@ -363,12 +363,27 @@ func VH_C20_BidSurplus() {
 		vreach("surplus-bid-error")
 		return
 	}
+	receive := sellerLock
+	if vparam("RS", 0) > 0 {
+		// the seller may name any receive script: one longer than the placeholder the bidder budgeted for
+		// (one extra byte may still fit the rounded fee; 77 bytes never do)
+		rs := []int{26, 35, 77}[vnondetLen("receive-len", 0, 2)]
+		long := make(bscript.Script, rs)
+		for i := range long {
+			long[i] = bscript.Op1
+		}
+		receive = &long
+	}
 	tx, err := AcceptBidToBuy1SatOrdinal(ctx, &ValidateBidArgs{OrdinalUTXO: ordUTXO, BidAmount: bid, ExpectedFQ: fq},
-		&AcceptBidArgs{PSTx: pstx, SellerReceiveScript: sellerLock, OrdinalUnlocker: sellerU})
+		&AcceptBidArgs{PSTx: pstx, SellerReceiveScript: receive, OrdinalUnlocker: sellerU})
 	if err != nil {
+		vreach("surplus-accept-error")
 		return
 	}
 	vassert(len(tx.Inputs) == n+1, "C20: surplus: accepted bid has one input per funding UTXO plus the ordinal")
+	sin, sout := vsums(tx)
+	fees, ferr := tx.EstimateFeesPaid(fq)
+	vassert(ferr == nil && sin >= sout && sin-sout >= fees.TotalFeePaid, "C20: surplus: accepted bid pays at least the quoted fee")
 	prevs := make([]*bt.Output, len(tx.Inputs))
 	for i, in := range tx.Inputs {
 		prevs[i] = &bt.Output{Satoshis: in.PreviousTxSatoshis, LockingScript: in.PreviousTxScript}
